@@ -8,7 +8,7 @@ Local Open Scope string_scope.
    {aud, iat, nonce, sd_hash = hash of exactly the prefix under the token's _sd_alg} *)
 Theorem build_bound_shape O E h a cseg c claims alg aud jalg kb :
   jwt_parts_m (h_jwt h) = Val (a, cseg, c) -> o_claims O cseg = Ok claims -> jhas "cnf" claims = true ->
-  parse_halg (jstr_or_empty (jget "_sd_alg" claims)) = Some alg -> h_kb h = Some (aud, jalg) ->
+  declared_halg claims = Some alg -> h_kb h = Some (aud, jalg) ->
   e_sign E (kb_header jalg) (kb_claims aud (e_nonce E) (e_iat E) (o_hash O alg (presentation_prefix (h_jwt h) (selected h)))) = Val kb ->
   holder_build O E h = Val (presentation_prefix (h_jwt h) (selected h) ++ kb).
 Proof.
@@ -34,7 +34,7 @@ Proof.
   destruct (o_claims O cseg) as [claims|]; cbn [of_res obind]; try discriminate.
   destruct (jhas "cnf" claims) eqn:Eb.
   - destruct (h_kb h) as [[aud jalg]|]; cbn [andb]; try discriminate.
-    destruct (parse_halg _) as [alg|]; try discriminate.
+    destruct (declared_halg _) as [alg|]; try discriminate.
     destruct (e_sign E1 _ _) as [k1| |]; cbn [obind]; try discriminate. intros H1; injection H1 as <-.
     destruct (e_sign E2 _ _) as [k2| |]; cbn [obind]; try discriminate. intros H2; injection H2 as <-.
     eauto.
